@@ -55,7 +55,17 @@ def make_archive(nversions, t0=1_700_000_000, name="c12src", target=None):
 
 
 def vdir(row):
-    return "%s.task.%d" % (row[0].split(":")[1], row[1])
+    path, name = row[0][2:].split(":")
+    return os.path.join(path, "%s.task.%d" % (name, row[1]))
+
+
+def staging_name():
+    """The name Conductor uses for its restore staging directory inside cond-out."""
+    try:
+        from conductor.config import ARCHIVE_STAGING
+        return ARCHIVE_STAGING
+    except ImportError:
+        return "archive-tmp"
 
 
 def repack(data, mutate, name="c12pack"):
@@ -135,7 +145,7 @@ def corruptions(data, rows, tier, smallest):
 
 
 PRIORS = ["empty", "holds-recorded-same", "holds-unrecorded-dir", "holds-unrelated", "stale-staging", "stale-staging-other", "format1-index",
-          "stale-staging-same"]
+          "stale-staging-same", "package-named-archive-tmp"]
 # corruptions after which the restore "cannot complete" by the statement (archive lacks its index or a listed directory / is no archive)
 MUST_FAIL = ("no-index", "no-dir", "garbage-index", "empty-tar", "not-a-tar", "zero-bytes", "file-instead-of-dir", "row-without-dir", "v3-index")
 
@@ -157,6 +167,10 @@ def make_prior(prior, rows, other):
     elif prior == "holds-unrelated":
         driver.make_index(os.path.join(co, "version_index.sqlite"), [("//:e1", 999, None, 0), ("//:zz", first[1], "c" * 40, 1)])
         driver.write_tree(co, {"e1.task.999/keep.txt": "keep\n", "zz.task.%d/keep.txt" % first[1]: "keep2\n"})
+    elif prior == "package-named-archive-tmp":
+        # `archive-tmp` is a perfectly valid package name: //archive-tmp:zz has a recorded version (and so does a nested package)
+        driver.make_index(os.path.join(co, "version_index.sqlite"), [("//archive-tmp:zz", 5, None, 0), ("//archive-tmp/sub:zz", 6, None, 0)])
+        driver.write_tree(co, {"archive-tmp/zz.task.5/keep.txt": "results of //archive-tmp:zz\n", "archive-tmp/sub/zz.task.6/keep.txt": "nested\n"})
     elif prior == "format1-index":
         # a project last used with Conductor <= 0.4: the restoring process upgrades the index first
         c = sqlite3.connect(os.path.join(co, "version_index.sqlite"))
@@ -169,7 +183,7 @@ def make_prior(prior, rows, other):
     elif prior in ("stale-staging", "stale-staging-other", "stale-staging-same"):
         driver.make_index(os.path.join(co, "version_index.sqlite"), [("//:e1", 999, None, 0)])
         driver.write_tree(co, {"e1.task.999/keep.txt": "keep\n"})
-        st = os.path.join(co, "archive-tmp")
+        st = os.path.join(co, staging_name())
         os.makedirs(st)
         p = os.path.join(st, "in.tar.gz")
         with open(p, "wb") as f:
@@ -401,7 +415,7 @@ def run_item(item, tier):
             if success and cname.split("@")[0].split(":")[0] in MUST_FAIL:
                 viol("corrupt:%s:restored-anyway" % cname.split(":")[0], "the archive is damaged (%s) but cond restore reported success (prior state %s)"
                      % (cname, item["prior"]), art)
-            if cname == "none" and item["prior"] in ("empty", "holds-unrelated", "stale-staging", "stale-staging-other", "format1-index", "stale-staging-same") and not success:
+            if cname == "none" and item["prior"] in ("empty", "holds-unrelated", "stale-staging", "stale-staging-other", "format1-index", "stale-staging-same", "package-named-archive-tmp") and not success:
                 viol("valid-restore-failed", "restoring a valid archive into prior state %s failed: %r %s" % (item["prior"], r.exc, r.err_text[:200]), art)
         res["sample"] = {"archive_rows": arows, "prior": item["prior"], "corruptions": "index/dir removed, truncations, garbage/format-1 index, ..."}
     elif item["kind"] == "interrupt":
